@@ -383,6 +383,14 @@ def gen_c06(rnd, n, thorough=False):
                     ll += ["gwcreate f %s m %d x %08x" % (fmt_layout(lay), m, xd), "gwmany f %d %d %s" % (nw, len(ptsd), " ".join("%d %016x" % tv for tv in ptsd)), "gwclose f"]
                 ll += ["clixread f %d %d %d" % (nw - 95, nw, nw), "clixread f %d %d %d" % (nw - 9, nw, nw)]
                 cases.append({'id': 'c06-%d-xff-%s' % (c, wr[:2]), 'lines': ll, 'tags': {'layout': 'tens_exact', 'writer': wr + '_decimal_xff', 'levels': len(lay), 'method': m}})
+        if rnd.chance(0.08):
+            # a file written by the copy command with nothing to copy (never-written source, missing destination):
+            # it is a complete classic file all the same (header on disk, every slot empty)
+            lc = ','.join([str(k)] + ['%d,%d' % sn for sn in layout])
+            ll = ["create s/a.wsp %s m %d x %08x" % (fmt_layout(layout), m, xff), "sync s/a.wsp", "drop s/a.wsp",
+                  "clicopy src=s:a.wsp dest=d:a.wsp from=0 until=0 archive=-1 copynan=%d m=%d x=%08x layout=%s" % (rnd.pick([0, 1]), m, xff, lc),
+                  "hdrof d/a.wsp", "clixread d/a.wsp %d %d %d" % (max(now - rets[0], 0), now, now)]
+            cases.append({'id': 'c06-%d-emptycopy' % c, 'lines': ll, 'tags': {'layout': lname, 'writer': 'whispertool_copy_of_nothing', 'levels': k, 'method': m}})
         if rnd.chance(0.1) and k >= 2:
             # two files created from one list value, written one after the other with single updates at
             # different clock positions: each is the classic file of its own history
